@@ -330,6 +330,9 @@ def representation(run):
 
 
 def build(run):
+    from props import conformance
+
+    conformance.run_conformance(run, ['awq', 'group'])
     run.assume("A-ENGINE", "A-PY", "A-TORCH-IDX reshape / permute / advanced indexing / numpy reshape-transpose-astype as index maps", "A-TORCH-EW int32/int16 shifts, truncation, "
                "arithmetic right shift on int32, bitwise and", "A-CUDA the functions are verified as text on tensors that carry device 'cuda'; no GPU kernel is executed", "group / ungroup contracts (C02)")
     run.assumptions += ["v1 with reordering: the number of columns fits in int32 (torch.arange(..., dtype=int32) is used as the gather index)", "v2: rows 4*Nb, columns 64*Kb with Nb, Kb >= 1 symbolic; v1: rows N, columns 8*C symbolic; every nibble value",
